@@ -8,6 +8,8 @@
      hx_ctl replay                    < script   > trace.ndjson
      hx_ctl gen-random seed nexec steps           > script      seeded random histories
      hx_ctl gen-create                            > script      creation / init / allocation-failure grid
+     hx_ctl gen-durgrid seed                      > script      frame-duration grid x entry points x buffer lengths
+     hx_ctl gen-reset seed [stride]               > script      settings in force before the first frame, across resets
 
    Script (one operation per line; an execution starts with N and ends at the next N / EOF):
      N enc <via 0=create 1=init> <Fs> <ch> <app> <failk>
@@ -18,7 +20,10 @@
      N pjd <Fs> <nch> <streams> <coupled> <failk>
      S <req> <v>        setter          Q <req>   getter with a null pointer     U <req>  unknown request
      R                  reset           G <id> <null>   per-stream state getter (multistream)
-     E <frame_size> <max_bytes> <sig>   encode (sig 0 silence, 1 loud non-stationary voice-like, 2 faint noise, 3 loud wide stereo music-like)
+     E <frame_size> <max_bytes> <sig> [<ep>]   encode frame_size samples per channel (the caller's buffer length; sig 0 silence,
+                        1 loud non-stationary voice-like, 2 faint noise, 3 loud wide stereo music-like) through entry point
+                        ep: 0 opus_encode (16 bit, default), 1 opus_encode24, 2 opus_encode_float (and the multistream /
+                        projection counterparts)
      D <mode>           decode (0 a valid packet, 1 concealment, 2 random bytes)
    failk > 0: the failk-th malloc during the creating call returns NULL (linked with -Wl,--wrap=malloc). */
 #include "hx_common.h"
@@ -356,24 +361,45 @@ static int ctl_p(int req, void *p)
    return -9999;
 }
 
-static void op_encode(int fs, int mb, int sig)
+/* ep: the PCM entry point - 0 opus_*_encode (16 bit), 1 opus_*_encode24, 2 opus_*_encode_float.  fs is the number of
+   samples per channel the caller hands in (the buffer length); the requested duration (rd) is read from the object
+   before the call and the duration of the packet (ns, opus_packet_get_nb_samples) after it. */
+static void op_encode(int fs, int mb, int sig, int ep)
 {
-   int ch = (o.kind == K_ENC) ? o.ch : o.nch, ret, keep, cok;
+   int ch = (o.kind == K_ENC) ? o.ch : o.nch, ret, keep, cok, ns = 0, i;
    int nsmp = fs > 0 && fs <= 48000 ? fs : 1;
    opus_int16 *pcm = (opus_int16 *)malloc(sizeof(opus_int16) * nsmp * ch);
+   opus_int32 *pcm24 = NULL; float *pcmf = NULL; opus_int32 rd = -77777;
    hx_buf out = hx_buf_new(mb > 0 ? mb : 1, 0xEE);
    sig_fill(pcm, nsmp, ch, o.Fs, sig);
+   if (ep == 1) {
+      pcm24 = (opus_int32 *)malloc(sizeof(opus_int32) * nsmp * ch);
+      for (i = 0; i < nsmp * ch; i++) pcm24[i] = (opus_int32)pcm[i] * 256;
+   } else if (ep == 2) {
+      pcmf = (float *)malloc(sizeof(float) * nsmp * ch);
+      for (i = 0; i < nsmp * ch; i++) pcmf[i] = (float)pcm[i] * (1.0f / 32768.0f);
+   }
+   if (o.kind == K_ENC) opus_encoder_ctl(o.enc, OPUS_GET_EXPERT_FRAME_DURATION(&rd));
+   else ms_enc_ctl_p(OPUS_GET_EXPERT_FRAME_DURATION_REQUEST, &rd);
    hx_arm(60);
-   if (o.kind == K_ENC) ret = opus_encode(o.enc, pcm, fs, out.p, mb);
-   else if (o.kind == K_MSE) ret = opus_multistream_encode(o.mse, pcm, fs, out.p, mb);
-   else ret = opus_projection_encode(o.pje, pcm, fs, out.p, mb);
+   if (o.kind == K_ENC)
+      ret = ep == 1 ? opus_encode24(o.enc, pcm24, fs, out.p, mb) : ep == 2 ? opus_encode_float(o.enc, pcmf, fs, out.p, mb)
+                    : opus_encode(o.enc, pcm, fs, out.p, mb);
+   else if (o.kind == K_MSE)
+      ret = ep == 1 ? opus_multistream_encode24(o.mse, pcm24, fs, out.p, mb) : ep == 2 ? opus_multistream_encode_float(o.mse, pcmf, fs, out.p, mb)
+                    : opus_multistream_encode(o.mse, pcm, fs, out.p, mb);
+   else
+      ret = ep == 1 ? opus_projection_encode24(o.pje, pcm24, fs, out.p, mb) : ep == 2 ? opus_projection_encode_float(o.pje, pcmf, fs, out.p, mb)
+                    : opus_projection_encode(o.pje, pcm, fs, out.p, mb);
    hx_disarm();
    cok = hx_buf_ok(&out);
+   if (ret > 0) ns = opus_packet_get_nb_samples(out.p, ret, o.Fs);    /* (of the first stream's packet for a multistream object) */
    ev_open("enc"); js_int("fs", fs); js_int("mb", mb); js_int("sig", sig); js_int("r", ret); js_int("cok", cok);
    keep = ret > 0 ? (ret < 40 ? ret : 40) : 0;
    js_arr_b("h", out.p, keep);
+   js_int("ep", ep); js_int("rd", rd); js_int("ns", ns);
    ev_close();
-   hx_buf_free(&out); free(pcm);
+   hx_buf_free(&out); free(pcm); free(pcm24); free(pcmf);
    if (!cok) { fflush(stdout); fprintf(stderr, "canary damaged by encode\n"); _exit(96); }
 }
 
@@ -410,12 +436,12 @@ static void replay(FILE *f)
 {
    char line[512];
    while (fgets(line, sizeof line, f)) {
-      char op = line[0]; int a = 0, b = 0, c = 0;
+      char op = line[0]; int a = 0, b = 0, c = 0, d = 0;
       g_ln++;
       if (op == '#' || op == '\n' || op == 0) continue;
       if (op == 'N') { op_new(line + 1); fflush(stdout); continue; }
       if (o.kind == K_NONE) continue;      /* nothing to drive: creation failed */
-      sscanf(line + 1, "%d %d %d", &a, &b, &c);
+      sscanf(line + 1, "%d %d %d %d", &a, &b, &c, &d);
       switch (op) {
       case 'S': { int r = ctl_i(a, b); ev_open("set"); js_int("req", a); js_int("v", b); js_int("r", r); ev_close(); } break;
       case 'Q': { int r = ctl_p(a, NULL); ev_open("getnull"); js_int("req", a); js_int("r", r); ev_close(); } break;
@@ -435,7 +461,7 @@ static void replay(FILE *f)
                   else if (o.kind == K_MSD || o.kind == K_PJD) r = b ? ms_dec_state(a, NULL) : ms_dec_state(a, (OpusDecoder **)&p);
                   else break;
                   ev_open("sget"); js_int("id", a); js_int("null", b); js_int("r", r); ev_close(); } break;
-      case 'E': if (o.kind == K_ENC || o.kind == K_MSE || o.kind == K_PJE) op_encode(a, b, c); break;
+      case 'E': if (o.kind == K_ENC || o.kind == K_MSE || o.kind == K_PJE) op_encode(a, b, c, d >= 0 && d <= 2 ? d : 0); break;
       case 'D': if (o.kind == K_DEC || o.kind == K_MSD || o.kind == K_PJD) op_decode(a); break;
       default: break;
       }
@@ -493,22 +519,128 @@ static void gen_encode(hx_rng *r, int Fs, int longish, int sig)
    switch (hx_u(r, 12)) { case 0: mb = 1; break; case 1: mb = 2; break; case 2: mb = 3; break; case 3: mb = hx_range(r, 4, 40); break;
                           case 4: mb = hx_range(r, 41, 300); break; default: mb = hx_u(r, 3) ? 1276 : 4000; }
    if (sig < 0) { sig = hx_u(r, 10); sig = sig < 5 ? 1 : sig < 8 ? 3 : sig < 9 ? 0 : 2; }
-   printf("E %d %d %d\n", pick_frame(r, Fs, longish), mb, sig);
+   printf("E %d %d %d %d\n", pick_frame(r, Fs, longish), mb, sig, (int)hx_u(r, 3));
+}
+
+
+/* settings put in force before the first frame (forced channels, forced / maximum bandwidth, frame duration, rate, hints),
+   then packets through all three entry points with OPUS_RESET_STATE in between: the settings survive the reset and bind the
+   very first packet after it like the first packet of a fresh encoder */
+static void gen_honoured_body(hx_rng *r, int Fs, int ch, int app, int steps)
+{
+   int i, sig = hx_u(r, 3) ? 1 : 3, since = 0;
+   int fsz = Fs / 400 * (int[]){4, 8, 8, 8, 16, 24, 2}[hx_u(r, 7)];
+   (void)app;
+   printf("S 4002 %d\n", (int[]){8000, 12000, 16000, 24000, 32000, 48000, 64000, 96000}[hx_u(r, 8)]);
+   if (hx_u(r, 4)) printf("S 4022 %d\n", (int)hx_range(r, 1, ch));
+   if (hx_u(r, 3) == 0) printf("S 4008 %d\n", (int)hx_range(r, 1101, 1105));
+   if (hx_u(r, 3) == 0) printf("S 4004 %d\n", (int)hx_range(r, 1101, 1105));
+   if (hx_u(r, 2)) printf("S 4024 %d\n", (int[]){3001, 3001, 3002}[hx_u(r, 3)]);
+   if (hx_u(r, 3) == 0) printf("S 4040 %d\n", (int)hx_range(r, 5001, 5007));
+   if (hx_u(r, 2)) printf("S 4010 %d\n", (int)hx_range(r, 0, 6));
+   for (i = 0; i < steps; i++) {
+      if (since >= 2 && hx_u(r, 3) == 0) { printf("R\n"); since = 0; }
+      printf("E %d 1276 %d %d\n", fsz + (hx_u(r, 4) ? 0 : Fs / 400 * (int)hx_u(r, 5)), sig, (int)hx_u(r, 3));
+      since++;
+   }
+}
+
+/* gen-reset: the grid (Fs, application, forced channel count, frame size, bitrate, signal hint) on stereo encoders, the forced
+   channel count (and sometimes a bandwidth limit) in force before the first frame; three packets, a reset, three packets, a
+   reset, two packets */
+static void gen_reset(uint64_t seed, int stride)
+{
+   static const int ms4[4] = {4, 8, 16, 24};
+   static const int br[3] = {12000, 24000, 48000};
+   hx_rng r; int f, a, fc, k, b, h, i; long pt = 0;
+   r.s = seed * 2654435761u + 99;
+   if (stride < 1) stride = 1;
+   for (f = 0; f < 5; f++) for (a = 0; a < 3; a++) for (fc = 1; fc <= 2; fc++) for (k = 0; k < 4; k++) for (b = 0; b < 3; b++) for (h = 0; h < 2; h++) {
+      int Fs = FS[f], fsz = Fs / 400 * ms4[k], sig = hx_u(&r, 4) ? 1 : 3, ep = hx_u(&r, 3);
+      if ((pt++ + (long)seed) % stride) continue;        /* a slice of the grid (quick tier) */
+      printf("N enc %d %d 2 %d 0\n", (int)hx_u(&r, 4) == 0, Fs, APPS[a]);
+      printf("S 4002 %d\nS 4022 %d\n", br[b] + (int)hx_u(&r, 4000), fc);
+      if (h) printf("S 4024 3001\n");
+      if (hx_u(&r, 4) == 0) printf("S 4004 %d\n", (int)hx_range(&r, 1101, 1105));
+      if (hx_u(&r, 6) == 0) printf("S 4008 %d\n", (int)hx_range(&r, 1101, 1105));
+      printf("S 4010 %d\n", (int)hx_range(&r, 0, 5));
+      for (i = 0; i < 8; i++) {
+         if (i == 3 || i == 6) printf("R\n");
+         printf("E %d 1276 %d %d\n", fsz, sig, hx_u(&r, 4) ? ep : (int)hx_u(&r, 3));
+      }
+   }
+}
+
+/* gen-durgrid: OPUS_SET_EXPERT_FRAME_DURATION(x) before the first frame for every x (ARG, 2.5 ... 120 ms) at every
+   (Fs, channels, application) through every entry point; the caller's buffer is exactly x, longer (the next legal sizes, a
+   length that is no legal size, the 120 ms maximum and beyond it), and shorter (refused).  A reset in the middle. */
+static int dur_samples(int dur, int Fs) { return dur <= 5005 ? (Fs / 400) << (dur - 5001) : (dur - 5003) * Fs / 50; }
+static void gen_durgrid(uint64_t seed)
+{
+   static const int num[9] = {1, 2, 4, 8, 16, 24, 32, 40, 48};
+   hx_rng r; int f, c, a, d, ep, i;
+   r.s = seed * 0x9E3779B1u + 7;
+   for (f = 0; f < 5; f++) for (c = 1; c <= 2; c++) for (a = 0; a < 3; a++) for (d = 5000; d <= 5009; d++) for (ep = 0; ep < 3; ep++) {
+      int Fs = FS[f], q = Fs / 400, sig = hx_u(&r, 2) ? 1 : 3;
+      printf("N enc %d %d %d %d 0\n", (int)hx_u(&r, 4) == 0, Fs, c, APPS[a]);
+      printf("S 4010 %d\n", (int)hx_range(&r, 0, 5));
+      if (hx_u(&r, 2)) printf("S 4002 %d\n", (int[]){12000, 24000, 48000, 96000}[hx_u(&r, 4)]);
+      if (hx_u(&r, 4) == 0) printf("S 4006 0\n");
+      printf("S 4040 %d\n", d);
+      if (d == 5000) {
+         /* the buffer length is the frame size: every legal size once in a random order slice, and lengths that are none */
+         int start = hx_u(&r, 9);
+         for (i = 0; i < 4; i++) printf("E %d 1276 %d %d\n", q * num[(start + 2 * i) % 9], sig, ep);
+         printf("E %d 1276 %d %d\n", q * num[hx_u(&r, 9)] + 1, sig, ep);
+         printf("E %d 1276 %d %d\n", q * 3 * (1 + (int)hx_u(&r, 2)), sig, ep);
+         printf("R\n");
+         printf("E %d 1276 %d %d\n", q * num[hx_u(&r, 9)], sig, ep);
+         printf("E %d 1276 %d %d\n", q * 48 + q, sig, ep);
+         printf("E %d 1276 %d %d\n", q - 1, sig, ep);
+      } else {
+         int D = dur_samples(d, Fs), j = d - 5001;
+         printf("E %d 1276 %d %d\n", D, sig, ep);                                   /* exactly x */
+         printf("E %d 1276 %d %d\n", j < 8 ? q * num[j + 1] : D + q, sig, ep);      /* the next legal size / 2.5 ms more */
+         printf("E %d 1276 %d %d\n", D + 1 + (int)hx_u(&r, q), sig, ep);            /* longer, not a legal size */
+         printf("E %d 1276 %d %d\n", D - 1, sig, ep);                               /* shorter: refused */
+         printf("E %d 1276 %d %d\n", q * 48, sig, ep);                              /* the 120 ms maximum */
+         printf("R\n");
+         printf("E %d 1276 %d %d\n", j < 7 ? q * num[hx_range(&r, j + 1, 8)] : q * 48 + 7, sig, ep);
+         printf("E %d 1276 %d %d\n", D / 2, sig, ep);                               /* shorter: refused */
+         printf("E %d 1276 %d %d\n", q * 48 + 7, sig, (ep + 1 + (int)hx_u(&r, 2)) % 3);   /* beyond the maximum, another entry point */
+         printf("E %d 1276 %d %d\n", D, sig, ep);
+      }
+   }
+   /* multistream / surround / projection objects keep the frame duration at their own level: the same buffers */
+   for (f = 0; f < 5; f++) for (ep = 0; ep < 3; ep++) for (i = 0; i < 3; i++) {
+      int Fs = FS[f], q = Fs / 400, D;
+      d = (int[]){5002, 5003, 5004, 5006, 5001, 5005}[(f + ep + i + (int)hx_u(&r, 2) * 3) % 6]; D = dur_samples(d, Fs);
+      if (i == 0) printf("N mse %d 3 2 1 %d -1 0\n", Fs, APPS[(f + ep) % 3]);
+      else if (i == 1) printf("N mse %d %d 0 0 %d 1 0\n", Fs, (int)hx_range(&r, 1, 4), APPS[(f + ep + 1) % 3]);
+      else printf("N pje %d 4 3 %d 0\n", Fs, APPS[(f + ep + 2) % 3]);
+      printf("S 4010 %d\nS 4040 %d\n", (int)hx_range(&r, 0, 3), d);
+      printf("E %d 4000 3 %d\n", D, ep);
+      printf("E %d 4000 3 %d\n", 2 * D, ep);
+      printf("E %d 4000 3 %d\n", D + 1 + (int)hx_u(&r, q), ep);
+      printf("E %d 4000 3 %d\n", D - 1, ep);
+      printf("R\n");
+      printf("E %d 4000 3 %d\n", q * 48, (ep + 1) % 3);
+   }
 }
 
 static void gen_enc_exec(hx_rng *r, int Fs, int ch, int app, int steps)
 {
-   int scen = hx_u(r, 6), i, sig = -1, longish = 0;
+   int scen = hx_u(r, 7), i, sig = -1, longish = 0;
    printf("N enc %d %d %d %d 0\n", (int)hx_u(r, 4) == 0, Fs, ch, app);
    if (scen == 1) {
       /* rate walk on long frames: stereo <-> mono decisions inside multi-frame packets */
-      int fsz = Fs / 400 * (hx_u(r, 2) ? 32 : (hx_u(r, 2) ? 48 : 16));
+      int fsz = Fs / 400 * (hx_u(r, 2) ? 32 : (hx_u(r, 2) ? 48 : 16)), ep = hx_u(r, 3);
       if (hx_u(r, 2)) printf("S 4010 %d\n", (int)hx_range(r, 0, 10));
       if (hx_u(r, 3) == 0) printf("S 4024 %d\n", 3001);
       sig = hx_u(r, 2) ? 1 : 3;
       for (i = 0; i < steps; i++) {
          if (i % 3 == 0) printf("S 4002 %d\n", (i / 3) % 2 == 0 ? hx_range(r, 32000, 64000) : hx_range(r, 6000, 12000));
-         printf("E %d %d %d\n", fsz, 1276, sig);
+         printf("E %d %d %d %d\n", fsz, 1276, sig, ep);
       }
       return;
    }
@@ -517,7 +649,7 @@ static void gen_enc_exec(hx_rng *r, int Fs, int ch, int app, int steps)
       for (i = 0; i < steps; i++) {
          if (i % 5 == 0) { static const int fc[3] = {-1000, 1, 2}; printf("S 4022 %d\n", fc[hx_u(r, 3)]); }
          if (i % 7 == 3) printf("S 4002 %d\n", pick_bitrate(r));
-         printf("E %d %d %d\n", Fs / 400 * (int[]){4, 8, 8, 16, 24}[hx_u(r, 5)], 1276, hx_u(r, 2) ? 1 : 3);
+         printf("E %d %d %d %d\n", Fs / 400 * (int[]){4, 8, 8, 16, 24}[hx_u(r, 5)], 1276, hx_u(r, 2) ? 1 : 3, (int)hx_u(r, 3));
       }
       return;
    }
@@ -541,6 +673,7 @@ static void gen_enc_exec(hx_rng *r, int Fs, int ch, int app, int steps)
       return;
    }
    if (scen == 4) { longish = 1; }
+   if (scen == 6) { gen_honoured_body(r, Fs, ch, app, steps); return; }
    /* generic: anything in any order */
    for (i = 0; i < steps; i++) {
       unsigned d = hx_u(r, 100);
@@ -549,7 +682,7 @@ static void gen_enc_exec(hx_rng *r, int Fs, int ch, int app, int steps)
       else if (d < 88) printf("Q %d\n", ENCGET[hx_u(r, sizeof ENCGET / sizeof ENCGET[0])]);
       else if (d < 92) printf("U %d\n", ENCUNK[hx_u(r, sizeof ENCUNK / sizeof ENCUNK[0])]);
       else if (d < 96) printf("R\n");
-      else printf("E %d %d %d\n", (int[]){0, -1, Fs / 400 - 1, Fs / 50 + 1, Fs / 25 * 3 + 7, Fs}[hx_u(r, 6)], (int[]){1276, 0, -1}[hx_u(r, 3)], 1);
+      else printf("E %d %d %d %d\n", (int[]){0, -1, Fs / 400 - 1, Fs / 50 + 1, Fs / 25 * 3 + 7, Fs}[hx_u(r, 6)], (int[]){1276, 0, -1}[hx_u(r, 3)], 1, (int)hx_u(r, 3));
    }
 }
 
@@ -573,7 +706,8 @@ static void gen_ms_steps(hx_rng *r, int Fs, int steps, int streams, int enc)
    for (i = 0; i < steps; i++) {
       unsigned d = hx_u(r, 100);
       if (enc) {
-         if (d < 25) printf("E %d %d %d\n", Fs / 400 * (int[]){4, 8, 8, 16, 24}[hx_u(r, 5)], (int)(hx_u(r, 4) ? 4000 : hx_range(r, 10, 300)), (int)(hx_u(r, 4) ? 3 : 0));
+         if (d < 25) printf("E %d %d %d %d\n", Fs / 400 * (int[]){4, 8, 8, 16, 24}[hx_u(r, 5)] + (hx_u(r, 4) ? 0 : Fs / 400 * (int)hx_u(r, 9) + (int)hx_u(r, 2)),
+                            (int)(hx_u(r, 4) ? 4000 : hx_range(r, 10, 300)), (int)(hx_u(r, 4) ? 3 : 0), (int)hx_u(r, 3));
          else if (d < 75) gen_set(r, 2);
          else if (d < 82) printf("Q %d\n", ENCGET[hx_u(r, sizeof ENCGET / sizeof ENCGET[0])]);
          else if (d < 88) printf("U %d\n", (int[]){-1, 0, 3999, 4033, 4034, 4045, 4039, 4999, 12345, 2147483647, 5122}[hx_u(r, 11)]);
@@ -666,6 +800,8 @@ int main(int argc, char **argv)
    if (argc >= 2 && !strcmp(argv[1], "replay")) { replay(stdin); return 0; }
    if (argc >= 5 && !strcmp(argv[1], "gen-random")) { gen_random(strtoull(argv[2], 0, 10), atoi(argv[3]), atoi(argv[4])); return 0; }
    if (argc >= 2 && !strcmp(argv[1], "gen-create")) { gen_create(); return 0; }
-   fprintf(stderr, "usage: hx_ctl replay|gen-random seed nexec steps|gen-create\n");
+   if (argc >= 3 && !strcmp(argv[1], "gen-durgrid")) { gen_durgrid(strtoull(argv[2], 0, 10)); return 0; }
+   if (argc >= 3 && !strcmp(argv[1], "gen-reset")) { gen_reset(strtoull(argv[2], 0, 10), argc >= 4 ? atoi(argv[3]) : 1); return 0; }
+   fprintf(stderr, "usage: hx_ctl replay|gen-random seed nexec steps|gen-create|gen-durgrid seed|gen-reset seed [stride]\n");
    return 2;
 }
